@@ -229,8 +229,9 @@ def planRunFn (f : String) (a : Array Json) : Except String Json := do
     pure (Json.mkObj [("preferPlain", jstrs preferPlainModules), ("commonStdlib", jstrs commonStdlib)])
   | "dedupTwice" =>
     let ids ← getStrs (← argN a 0)
-    let once := dedupOpIds [] ids
-    pure (Json.arr #[jstrs once, jstrs (dedupOpIds [] once)])
+    match dedupOpIds? [] ids with
+    | none => pure Json.null
+    | some once => pure (Json.arr #[jstrs once, jopt jstrs (dedupOpIds? [] once)])
   | "sortedStrs" =>
     let xs ← getStrs (← argN a 0)
     pure (Json.mkObj [("sorted", jstrs (pySorted xs)), ("sortedSet", jstrs (sortU xs))])
